@@ -109,11 +109,11 @@ def _bucket(d: str, kind: str, t1, opts=None) -> tuple:
         if isinstance(n, (exp.Condition, exp.Query)) and not isinstance(n, (exp.Identifier, exp.Literal, exp.Star, exp.Null, exp.Boolean, exp.Column)):
             cands.append(n)
     sized = sorted(((F.count_nodes(n), i, n) for i, n in enumerate(cands)), key=lambda x: x[:2])
-    for _, _, n in sized[:60]:
+    for _, _, n in sized[:120]:
         st_, inf = tree_roundtrip(n, d, opts)
         if st_ == kind:
             return f"{d or 'base'}|{kind}|{type(n).__name__}", inf.get("s1")
-    return f"{d or 'base'}|{kind}|ctx:{type(t1).__name__}", None
+    return f"{d or 'base'}|{kind}|ctx", None
 
 
 def check_statement(case, res: core.Res | None = None):
@@ -163,6 +163,8 @@ def check_statement(case, res: core.Res | None = None):
                         fails.append(("base|FORMAT-CHANGED|root", f"{s!r} -> {info['s1']!r}"))
                 continue
             key, sub = _bucket(d, status, info["t1"], opts)
+            if not d and key.endswith("|ctx") and "fn:if" not in feats:
+                key += "-without-if"  # the base dialect's only catalogued construct is IF(); anything else stays strict
             detail = {k: (v if isinstance(v, (str, list)) else None) for k, v in info.items() if k != "t1"}
             fails.append((key, f"stream {stream} dialect {d or 'base'} input {text!r} minimal {sub!r} {detail}"))
     return fails
